@@ -774,7 +774,9 @@ def correspondence(ctx: Ctx):
             continue
         for f in dataclasses.fields(cls):
             h = hints.get(f.name)
-            prim = h in (int, float, bool, str)
+            core = [a for a in typing.get_args(h) if a is not type(None)] if typing.get_origin(h) is typing.Union else [h]
+            prim = all(c in (int, float, bool, str) or (isinstance(c, type) and issubclass(c, __import__("enum").Enum))
+                       for c in core)
             if prim and not ctx.thorough:
                 continue
             for v in ([1], [], {}, None, "x", 3, True, 2.5, {"bogus_key_zz": 1}, [[1], {"x": 1}, None]):
